@@ -104,8 +104,11 @@ def unit_kernel(args, prefix=(), max_depth=None):
         for msg, mdl in cx.failed_obligations(want_model=True):
             out['cex'].append(_case(mdl, cells, 'intension', _val(mdl, q), n, m, f'obligation: {msg}'))
             out['cex'].append(_case(mdl, cells, 'extension', _val(mdl, r), n, m, f'obligation: {msg}'))
-        if not cx.check_fresh():
+        mdl = cx.check_fresh(want_model=True)
+        if mdl is None:
             out['inconclusive'] = ['vacuous: path condition unsatisfiable']
+        elif not out['cex']:
+            out['witness'] = _case(mdl, cells, 'intension', _val(mdl, q), n, m, None)
         out['sample'] = {'unit': f'kernel {n}x{m}', 'queries': ['prime==A\'', 'double==A\'\'', 'doubleprime==(A\'\',A\')'],
                          'both_orientations': True, 'verdict': 'unsat' if not out['cex'] else 'sat',
                          'seconds': round(time.time() - t0, 2)}
